@@ -339,51 +339,54 @@ theorem C18_ident_norm_no_underscore (s : List Char) : '_' ∉ identNorm s := by
 theorem substNewlines_cons (k : NL) (c : Char) (r : List Char) :
     substNewlines k (c :: r) = if c = LF then k.chars ++ substNewlines k r else c :: substNewlines k r := rfl
 
-theorem dropBom_subst (k : NL) (s : List Char) : dropBom (substNewlines k s) = substNewlines k (dropBom s) := by
-  cases s with
+theorem lastLine_subst (k : NL) (s acc : List Char) :
+    lastLine isLineBreak (substNewlines k s) acc = lastLine isLineBreak s acc := by
+  induction s generalizing acc with
   | nil => rfl
-  | cons c r =>
-    have hlb : ¬ LF = Char.ofNat 0xFEFF := by decide
-    by_cases hb : c = Char.ofNat 0xFEFF
-    · subst hb
-      have : ¬ Char.ofNat 0xFEFF = LF := fun e => hlb e.symm
-      rw [substNewlines_cons]
-      simp [dropBom, this]
-    · by_cases hl : c = LF
-      · subst hl
-        rw [substNewlines_cons]
-        simp only [↓reduceIte, dropBom, hb]
-        rw [substNewlines_cons]
-        simp only [↓reduceIte]
-        cases k <;> simp [NL.chars] <;> decide
-      · rw [substNewlines_cons]
-        simp only [hl, ↓reduceIte, dropBom, hb]
-        rw [substNewlines_cons]
-        simp [hl]
+  | cons c r ih =>
+    rw [substNewlines_cons]
+    by_cases hl : c = LF
+    · subst hl
+      have h1 : isLineBreak LF = true := by decide
+      have h2 : isLineBreak CR = true := by decide
+      have h3 : isLineBreak FF = true := by decide
+      simp only [↓reduceIte]
+      cases k <;> simp [NL.chars, lastLine, h1, h2, h3, ih]
+    · simp only [hl, ↓reduceIte, lastLine]
+      split <;> exact ih _
 
-theorem not_mem_dropBom (s : List Char) (h : CR ∉ s) : CR ∉ dropBom s := by
-  cases s with
-  | nil => simp [dropBom]
-  | cons c r =>
-    simp only [dropBom]
-    split
-    · intro hm; exact h (List.mem_cons_of_mem _ hm)
-    · exact h
+/-- either the text has a line break (the accumulator is irrelevant) or it has none -/
+theorem lastLine_acc (b : Char → Bool) (s : List Char) :
+    (∀ acc, lastLine b s acc = lastLine b s []) ∨ (∀ acc, lastLine b s acc = acc.reverse ++ s) := by
+  induction s with
+  | nil => right; intro acc; simp [lastLine]
+  | cons c r ih =>
+    by_cases hc : b c = true
+    · left; intro acc; simp [lastLine, hc]
+    · rcases ih with ih | ih
+      · left; intro acc; simp only [lastLine, hc, Bool.false_eq_true, ↓reduceIte]; rw [ih (c :: acc), ih [c]]
+      · right; intro acc; simp only [lastLine, hc, Bool.false_eq_true, ↓reduceIte]; rw [ih (c :: acc)]; simp
 
-theorem C18_commentColumn_newline_invariant (k : NL) (pre : List Char) (h : CR ∉ pre) :
+/-- **The comment column as the code computes it now is invariant under the newline style**:
+    writing the line breaks before the comment as LF, CRLF, CR or FF does not change it. -/
+theorem C18_commentColumn_newline_invariant (k : NL) (pre : List Char) :
     commentColumn false (substNewlines k pre) = commentColumn false pre := by
-  simp only [commentColumn, Bool.false_eq_true, ↓reduceIte]
-  rw [dropBom_subst, normNL_subst k _ (not_mem_dropBom pre h)]
+  simp only [commentColumn, Bool.false_eq_true, ↓reduceIte, lastLine_subst]
 
-theorem C18_commentColumn_bom (pre : List Char) (h : pre.head? ≠ some (Char.ofNat 0xFEFF)) :
-    commentColumn false (Char.ofNat 0xFEFF :: pre) = commentColumn false pre := by
-  simp only [commentColumn, Bool.false_eq_true, ↓reduceIte]
-  cases pre with
-  | nil => simp [dropBom]
-  | cons c r =>
-    have : ¬ c = Char.ofNat 0xFEFF := by simpa using h
-    simp [dropBom, this]
+/-- ... and under a leading byte order mark. -/
+theorem C18_commentColumn_bom (pre : List Char) :
+    commentColumn false (BOMc :: pre) = commentColumn false pre := by
+  have hb : isLineBreak BOMc = false := by decide
+  simp only [commentColumn, Bool.false_eq_true, ↓reduceIte, lastLine, hb]
+  rcases lastLine_acc isLineBreak pre with h | h
+  · rw [h [BOMc]]
+  · rw [h [BOMc], h []]; simp
 
+example : commentColumn false (BOMc :: [' ', ' ']) = 2 ∧ commentColumn false ['a', CR, BOMc, ' '] = 1 := by decide
+
+/-- **Witness (as found, fixed in /repo by e81c3e6).**  The column the pinned tree used — codemap's,
+    which ends lines at LF only and counts a BOM — changes with the newline style and with a BOM:
+    the same comment was re-indented differently. -/
 theorem C18_asFound_commentColumn_depends_on_newline_style :
     commentColumn true (substNewlines .cr ['a', LF, ' ', ' ']) = 4 ∧ commentColumn true ['a', LF, ' ', ' '] = 2 ∧
     commentColumn true (Char.ofNat 0xFEFF :: [' ', ' ']) = 3 ∧ commentColumn true [' ', ' '] = 2 := by decide
